@@ -17,7 +17,7 @@ C12 line-protocol driver.
   cas <k> <n>                 k concurrent clients × n conditional increments → `cas <k*n>`
   pull <tree T> <pulled: tree|!>
                               load {"admin":{"config":{"load":{"module":"c12pull"}}},"apps":{"c12":T}}; the loader
-                              hands out <pulled>; answer <status of the load>/<config in the end>/<loads>/<autosave file>
+                              hands out <pulled>; then PATCH /id/<first id> {"w":1}; answer <status of the load>/<config>/<loads>/<autosave file>/<patch answer>/<config>
   cli <init tree> <file: tree|!|-> <flags>
                               `caddy reload` (the real command function) against the instance running <init>, over its
                               real admin listener; answer <ok|presend|F<status>:<class>>/<config>/<loads caused>
@@ -385,8 +385,19 @@ def handle : List String → String
       let s2 := if s1.loads == 1 then (pulledConfig env pb s1).1 else s1
       let sv := if s2.loads == 2 && cfgOf s2.rawCfg != .null then some (cfgOf s2.rawCfg)
                 else if s1.loads == 1 then some init else none
+      -- then one write through /id/: PATCH the first id of the document in place with {"w":1}
+      let ids := ((idTexts (cfgOf s2.rawCfg)).foldl (fun acc b => insertUniq b acc) []).filter
+        fun t => !t.isEmpty && !t.contains slash && t != dot && t != dotdot
+      let follow := match ids with
+        | [] => "noid"
+        | t :: _ =>
+          let (s3, r3) := serve env ⟨.patch, idPrefix ++ t, .val (.obj [(str "w", .num (str "1"))]), [], false, .json⟩ s2
+          match r3 with
+          | .ambiguous => "amb"
+          | r3 => showResp false r3 ++ "/" ++ encTree (cfgOf s3.rawCfg)
       (match r1 with | .okWrite => "200" | .fail f => toString (statusOf f) | _ => "?") ++ "/" ++
-        encTree (cfgOf s2.rawCfg) ++ "/" ++ toString s2.loads ++ "/" ++ (match sv with | some j => encTree j | none => "-")
+        encTree (cfgOf s2.rawCfg) ++ "/" ++ toString s2.loads ++ "/" ++ (match sv with | some j => encTree j | none => "-") ++
+        "/" ++ follow
     | _, _ => "bad-op"
   | ["cli", init, file, flags] =>
     -- `caddy reload --config <file>.json [--force] [--adapter …] [--address …]` against the running instance
